@@ -49,7 +49,7 @@ EXC_PARENT = {
     'ZeroDivisionError': 'ArithmeticError', 'OSError': 'Exception', 'ssl.SSLError': 'OSError',
     'ssl.SSLWantReadError': 'ssl.SSLError', 'ssl.CertificateError': 'ssl.SSLError',
     'struct.error': 'Exception', 'StopIteration': 'Exception', 'UnicodeDecodeError': 'ValueError',
-    'x509.ExtensionNotFound': 'Exception', 'AssertionError': 'Exception',
+    'cryptography.x509.ExtensionNotFound': 'Exception', 'AssertionError': 'Exception',
     'dbus.DBusException': 'Exception', 'cbor2.CBORDecodeError': 'Exception',
 }
 EXC_ALIAS = {'socket.error': 'OSError', 'IOError': 'OSError', 'EnvironmentError': 'OSError'}
